@@ -51,7 +51,7 @@ Qed.
 Lemma merged_is_g0 ft : feat_ok ft = true -> merged_gff ft = g0 ft.
 Proof.
   intros W. unfold feat_ok in W. rewrite !andb_true_iff in W. destruct W as [_ W].
-  unfold merged_gff in *. fold (g0 ft) in *.
+  unfold merged_gff, merged_gff_r in *. fold (g0 ft) in *.
   destruct (Nat.ltb 1 (length (flocs ft))) eqn:L; [|reflexivity].
   destruct (aget k_ID (g0 ft)) eqn:G; [reflexivity|]. cbn [negb andb] in *.
   apply Nat.ltb_lt in L. apply orb_prop in W. destruct W as [W|W]; [apply Nat.leb_le in W; lia|].
@@ -246,7 +246,7 @@ Lemma write_feat_eq ft l0 rest : feat_ok ft = true -> normalised ft = true -> fl
   write_feat ft = concat_opt (line_opts (g0 ft) l0 rest).
 Proof.
   intros W Nm Hl. pose proof (g0_ok ft W) as Mg.
-  unfold write_feat. rewrite (merged_is_g0 ft W), Hl.
+  unfold write_feat, write_feat_r. change (merged_gff_r random_id ft) with (merged_gff ft). rewrite (merged_is_g0 ft W), Hl.
   unfold normalised in Nm. rewrite Hl in Nm.
   assert (loc_meta (g0 ft) l0 = g0 ft) as E0 by (unfold loc_meta; destruct (lgff l0); [discriminate Nm|reflexivity]).
   rewrite E0. destruct (m_seqid _ Mg) as [E1 _]. destruct (m_type _ Mg) as [E3 C3].
